@@ -6,3 +6,5 @@ func verifC20NativeRun(st *verifC20Cmd) ([]byte, error)                         
 func verifC20NativeTool(stdout string, exit int) (*externalCommand, func() (int, string)) { return nil, nil }
 
 func verifC20NativeSchedule() {}
+
+func verifC10NativeRaces() {}
